@@ -1,4 +1,5 @@
 import RF.Lemmas.Project
+import RF.Lemmas.ParseErrors
 
 /-!
 # C05  A failing run never damages source files
@@ -25,6 +26,7 @@ exit 1).  A `required_version` mismatch, a missing path, a syntax error do *not*
 -/
 namespace RF.Props.C05
 open RF.Session RF.Project RF.Gen.Phases RF.Gen.Emitters RF.Lemmas.Project RF.Lemmas.Session
+open RF.ParseErrors RF.Gen.ParseErrs RF.Lemmas.ParseErrors
 
 /-- The formatter proper, as the generated lists describe it. -/
 abbrev genF (ops : FileOps) (kind : EmitterKind) : Config Cfg → Tree → List Effect × Option Flags :=
@@ -51,10 +53,11 @@ theorem fault_implies_no_write_of_safe (ps : List Phase) (hs : phasesSafe ps = t
   simp only [phasesSafe, Bool.and_eq_true] at hs
   exact exec_fault ⟨steps, ops, kind, cfg, root⟩ hf ps {} false false false hs.1 (by simp) (by simp)
 
-/-- **A failing root writes nothing** (the generated order): any fault in the root or in any file that
+/-- **A failing root writes nothing** (the generated order; files given by their parse *status* — the statement
+over diagnostics, ignore lists and recoverable errors is `fault_implies_no_write` below): any fault in the root or in any file that
 module resolution reaches ⇒ no file-system call at all for that root, in every emit mode, and the
 failure is recorded. -/
-theorem fault_implies_no_write (ops : FileOps) (kind : EmitterKind) (cfg : Cfg) (root : Tree) (hf : faulty cfg root = true) :
+theorem fault_implies_no_write_status (ops : FileOps) (kind : EmitterKind) (cfg : Cfg) (root : Tree) (hf : faulty cfg root = true) :
     (runProject formatProject formatFile ops kind cfg root).log = [] ∧
     ((cfg.skipChildren && root.file.ignored) = false →
       (runProject formatProject formatFile ops kind cfg root).flagged = true) :=
@@ -97,7 +100,7 @@ theorem fault_implies_exit_one (ops : FileOps) (kind : EmitterKind) (g : Config 
     | false => simp at hc; subst hc; simp [argOut]
   rw [pureLoop_single, hout]
   simp only [pureExit, sumFlags, List.foldr_cons, List.foldr_nil, add_none, Bool.false_eq_true, if_false]
-  obtain ⟨_, hflag⟩ := fault_implies_no_write ops kind c.opts root hf
+  obtain ⟨_, hflag⟩ := fault_implies_no_write_status ops kind c.opts root hf
   have hflag := hflag hi
   unfold outOf
   cases hv : c.versionOk with
@@ -300,7 +303,7 @@ example : (runProject formatProject formatFile idOps .files {} (demoTree .ok)) =
     ⟨.ok {}, [⟨0, .write .file, ['A', '\n']⟩, ⟨2, .write .file, ['C', '\n']⟩]⟩ := by decide
 
 /-- the same tree with an unclosed delimiter in the deepest module: hypothesis of
-`fault_implies_no_write` holds, nothing is written -/
+`fault_implies_no_write_status` holds, nothing is written -/
 example : faulty {} (demoTree .unclosed) = true ∧
     (runProject formatProject formatFile idOps .files {} (demoTree .unclosed)) = ⟨.err, []⟩ := by decide
 
@@ -345,7 +348,7 @@ example :
     (runCli (genF idOps .files) demoCfg false args).exit false = 1 :=
   ⟨rfl, by decide, by decide⟩
 
-/-- The flag half of `fault_implies_no_write` needs its hypothesis: a root on the `ignore` list under
+/-- The flag half of `fault_implies_no_write_status` needs its hypothesis: a root on the `ignore` list under
 `skip_children` is not parsed at all, so its unclosed delimiter goes unnoticed — empty report, exit 0
 (and nothing is written either).  The same holds under `disable_all_formatting`. -/
 theorem fault_flag_counterexample :
@@ -355,5 +358,344 @@ theorem fault_flag_counterexample :
   ⟨{ skipChildren := true },
     .node { path := 0, parse := .unclosed, orig := ['a'], visited := ['b'], ignored := true } .nil,
     by decide, by decide, by decide⟩
+
+/-! ## The parse-error bookkeeping (`SilentOnIgnoredFilesEmitter`, `can_reset`, `reset_errors`)
+
+Everything below is about the tables of `RF.Gen.ParseErrs`, which `translate/c05_errors.py` regenerates from
+src/parse/session.rs and src/parse/parser.rs on every run: `genEmit` (the two blocks of the emitter) and
+`genParse` (the arms of `parse_file_as_module` / `parse_crate`).  Quantification: every state the session can
+be in (in particular every history of earlier files), every sequence of diagnostics (level × location of the
+primary span), every way the rustc parser's call can end. -/
+
+/-- **The generated emitter blocks meet their specification** (finite check over the two flags): the block
+for a diagnostic that cannot be ignored raises `has_non_ignorable_parser_errors`, *clears `can_reset`* and
+hands the diagnostic on; the block for an ignored file touches nothing but `can_reset`, and raises it only
+while no non-ignorable diagnostic has been seen. -/
+theorem emit_prog_ok : emitProgOk genEmit = true := by decide
+
+/-- Closed form of the session after any sequence of diagnostics, from any state. -/
+theorem emit_closed_form (ds : List Diag) (s : Sess) :
+    (emitAll genEmit s ds).hasNonIgn = (s.hasNonIgn || ds.any (fun d => !d.ignorable)) ∧
+    (emitAll genEmit s ds).canReset =
+      (if ds.any (fun d => !d.ignorable) then false else (s.canReset || (!s.hasNonIgn && !ds.isEmpty))) ∧
+    (emitAll genEmit s ds).errCount = s.errCount + ds.countP Diag.isError ∧
+    (emitAll genEmit s ds).shown = s.shown + ds.countP (fun d => !d.ignorable) :=
+  emitAll_of_ok genEmit emit_prog_ok ds s
+
+/-- **`can_reset` ⇒ only ignored files have complained.**  If the shared flag is up after a sequence of
+diagnostics in a fresh session, every diagnostic so far was non-fatal and had its primary span in a local
+file on the ignore list. -/
+theorem can_reset_implies_only_ignored (ds : List Diag)
+    (h : (emitAll genEmit Sess.init ds).canReset = true) :
+    ∀ d ∈ ds, d.level ≠ .fatal ∧ d.loc = .localFile true := by
+  obtain ⟨_, h2, _, _⟩ := emit_closed_form ds Sess.init
+  rw [h2] at h
+  intro d hd
+  by_cases ha : ds.any (fun d => !d.ignorable) = true
+  · simp [ha] at h
+  · have : d.ignorable = true := by
+      cases hi : d.ignorable with
+      | true => rfl
+      | false => exact absurd (List.any_eq_true.2 ⟨d, hd, by simp [hi]⟩) ha
+    simpa [Diag.ignorable] using this
+
+/-- The invariant behind it, from any state (`reset_errors()` touches neither flag, so it holds along every
+run of a session): `can_reset` is never up together with `has_non_ignorable_parser_errors`, and if it is up
+after a sequence, the whole sequence was ignorable. -/
+theorem can_reset_invariant (ds : List Diag) (s : Sess) (hs : s.canReset = true → s.hasNonIgn = false) :
+    ((emitAll genEmit s ds).canReset = true → (emitAll genEmit s ds).hasNonIgn = false) ∧
+    ((emitAll genEmit s ds).canReset = true → ∀ d ∈ ds, d.ignorable = true) := by
+  obtain ⟨h1, h2, _, _⟩ := emit_closed_form ds s
+  rw [h1, h2]
+  by_cases ha : ds.any (fun d => !d.ignorable) = true
+  · simp [ha]
+  · have hall : ∀ d ∈ ds, d.ignorable = true := by
+      intro d hd
+      cases hi : d.ignorable with
+      | true => rfl
+      | false => exact absurd (List.any_eq_true.2 ⟨d, hd, by simp [hi]⟩) ha
+    simp only [ha, Bool.false_eq_true, if_false, Bool.or_false]
+    refine ⟨?_, fun _ => hall⟩
+    intro hc
+    cases hn : s.hasNonIgn with
+    | false => rfl
+    | true =>
+      simp only [hn, Bool.not_true, Bool.false_and, Bool.or_false] at hc
+      exact absurd (hs hc) (by simp [hn])
+
+/-- The emitter is idempotent on a repeated diagnostic (so rustc's optional de-duplication of identical
+diagnostics, which skips the emitter call, cannot change either flag). -/
+theorem emitter_step_idempotent (s : Sess) (d : Diag) :
+    (emitterStep genEmit (emitterStep genEmit s d) d).hasNonIgn = (emitterStep genEmit s d).hasNonIgn ∧
+    (emitterStep genEmit (emitterStep genEmit s d) d).canReset = (emitterStep genEmit s d).canReset := by
+  rw [emitterStep_of_ok genEmit emit_prog_ok, emitterStep_of_ok genEmit emit_prog_ok s d]
+  by_cases hi : d.ignorable = true <;> by_cases hn : s.hasNonIgn = true <;> simp [hi, hn]
+
+/-- An error that is fatal or lies outside the ignored files takes `can_reset` down for good and leaves a
+non-zero error count, whatever came before it and whatever follows it in the same call. -/
+theorem hard_error_poisons (s : Sess) (ds : List Diag) (h : ds.any Diag.hardError = true) :
+    (emitAll genEmit s ds).canReset = false ∧ (emitAll genEmit s ds).errCount ≠ 0 := by
+  obtain ⟨d, hd, hh⟩ := List.any_eq_true.1 h
+  simp only [Diag.hardError, Bool.and_eq_true, Bool.not_eq_true'] at hh
+  obtain ⟨_, h2, h3, _⟩ := emit_closed_form ds s
+  have ha : ds.any (fun d => !d.ignorable) = true := List.any_eq_true.2 ⟨d, hd, by simp [hh.2]⟩
+  have hc : 0 < ds.countP Diag.isError := List.countP_pos_iff.2 ⟨d, hd, hh.1⟩
+  rw [h2, h3]
+  simp only [ha, if_true, true_and]
+  omega
+
+/-- **The decisions of `parse_file_as_module`, as the generated arms have them**: accepted when no error is
+counted; accepted after `reset_errors()` when `can_reset` is up; `ParseError` otherwise; an `Err(e)` from the
+parser emits `e`, resets if `can_reset`, and is a `ParseError`; an unwinding call is a `ParseError` if the
+path exists and a `ParsePanicError` if not. -/
+theorem parse_file_decisions (s : Sess) (fp : FileParse) :
+    parseFile genParse s fp =
+      (let s1 := emitAll genEmit s fp.diags
+       match fp.raw with
+       | .ok =>
+         if s1.errCount = 0 then (s1, some .ok)
+         else if s1.canReset = true then (s1.reset, some .ok) else (s1, some .parseError)
+       | .err e =>
+         let s2 := dcxEmit genEmit s1 e
+         ((if s2.canReset = true then s2.reset else s2), some .parseError)
+       | .unwound => (s1, some (if fp.pathExists = true then .parseError else .parsePanicError))) := by
+  unfold parseFile
+  cases fp.raw with
+  | ok =>
+    simp only [genParse, fileArms, selectArm, patMatches, guardHolds, runPStmts, runPStmt, Sess.hasErrors]
+    by_cases h0 : (emitAll genEmit s fp.diags).errCount = 0
+    · simp [h0]
+    · by_cases hc : (emitAll genEmit s fp.diags).canReset = true <;> simp [h0, hc]
+  | err e => rfl
+  | unwound =>
+    simp only [genParse, fileArms, selectArm, patMatches, guardHolds, runPStmts, runPStmt]
+    by_cases hp : fp.pathExists = true <;> simp [hp]
+
+/-- … and of `parse_crate` (the root): the same two ways of being accepted; every failing arm of
+`ParserBuilder::build` / `parse_crate_mod` is an `Err`. -/
+theorem parse_crate_decisions (s : Sess) (fp : FileParse) :
+    parseCrate genParse s fp =
+      (let s1 := emitAll genEmit s fp.diags
+       match fp.raw with
+       | .ok =>
+         if s1.errCount = 0 then (s1, some .ok)
+         else if s1.canReset = true then (s1.reset, some .ok) else (s1, some .parseError)
+       | .err e =>
+         (dcxEmit genEmit s1 e,
+          some (match fp.stage with | .build => .parserCreationError | .crateMod => .parsePanicError))
+       | .unwound => (s1, some .parsePanicError)) := by
+  unfold parseCrate
+  cases fp.raw with
+  | ok =>
+    simp only [genParse, crateArms, selectArm, patMatches, guardHolds, runPStmts, runPStmt, Sess.hasErrors]
+    by_cases h0 : (emitAll genEmit s fp.diags).errCount = 0
+    · simp [h0]
+    · by_cases hc : (emitAll genEmit s fp.diags).canReset = true <;> simp [h0, hc]
+  | err e => cases fp.stage <;> rfl
+  | unwound => cases fp.stage <;> rfl
+
+/-- The generated matches are exhaustive: a call always has a result. -/
+theorem parse_never_stuck (s : Sess) (fp : FileParse) :
+    (parseFile genParse s fp).2 ≠ none ∧ (parseCrate genParse s fp).2 ≠ none := by
+  rw [parse_file_decisions, parse_crate_decisions]
+  constructor
+  · cases fp.raw <;> simp only [] <;> (repeat' split) <;> simp
+  · cases fp.raw <;> simp only [] <;> (repeat' split) <;> simp
+
+/-- **A fault is never reset.**  A file whose parse does not end in `Ok`, or that reports an error which is
+fatal or lies outside the ignored files, is *not accepted* — by `parse_file_as_module` and by `parse_crate`,
+in every state of the session (whatever ignored or non-ignored files were parsed before, whether or not
+`can_reset` is up when the call starts) and whatever other diagnostics the same call emits before or after. -/
+theorem non_ignored_error_never_reset : NeverAccepts genParse := by
+  have key : ∀ (s : Sess) (fp : FileParse), fp.fault = true → fp.raw = .ok →
+      (emitAll genEmit s fp.diags).errCount ≠ 0 ∧ (emitAll genEmit s fp.diags).canReset = false := by
+    intro s fp hf hr
+    simp only [FileParse.fault, FileParse.allDiags, hr, bne_self_eq_false, Bool.false_or] at hf
+    obtain ⟨h1, h2⟩ := hard_error_poisons s fp.diags hf
+    exact ⟨h2, h1⟩
+  constructor
+  · intro s fp hf
+    rw [parse_file_decisions]
+    cases hr : fp.raw with
+    | ok =>
+      obtain ⟨h1, h2⟩ := key s fp hf hr
+      simp [h1, h2]
+    | err e => simp
+    | unwound => by_cases hp : fp.pathExists = true <;> simp [hp]
+  · intro s fp hf
+    rw [parse_crate_decisions]
+    cases hr : fp.raw with
+    | ok =>
+      obtain ⟨h1, h2⟩ := key s fp hf hr
+      simp [h1, h2]
+    | err e => cases fp.stage <;> simp
+    | unwound => simp
+
+/-- Exactly when a module file is accepted: the parser returned `Ok`, and either nothing is counted (before
+*and* during the call) or nothing that is not ignorable has ever been seen by this session while at least
+one ignorable diagnostic has. -/
+theorem accepted_iff (s : Sess) (fp : FileParse) :
+    (parseFile genParse s fp).2 = some .ok ↔
+      fp.raw = .ok ∧
+      ((s.errCount = 0 ∧ fp.diags.countP Diag.isError = 0) ∨
+       (fp.diags.any (fun d => !d.ignorable) = false ∧ (s.canReset = true ∨ (s.hasNonIgn = false ∧ fp.diags ≠ [])))) := by
+  rw [parse_file_decisions]
+  obtain ⟨_, h2, h3, _⟩ := emit_closed_form fp.diags s
+  cases hr : fp.raw with
+  | err e => simp
+  | unwound => by_cases hp : fp.pathExists = true <;> simp [hp]
+  | ok =>
+    simp only [true_and]
+    by_cases h0 : (emitAll genEmit s fp.diags).errCount = 0
+    · have : s.errCount = 0 ∧ fp.diags.countP Diag.isError = 0 := by omega
+      simp [h0, this]
+    · have hne : ¬ (s.errCount = 0 ∧ fp.diags.countP Diag.isError = 0) := by omega
+      by_cases hc : (emitAll genEmit s fp.diags).canReset = true
+      · simp only [h0, hc, if_false, if_true, true_iff]
+        right
+        rw [h2] at hc
+        by_cases ha : fp.diags.any (fun d => !d.ignorable) = true
+        · simp [ha] at hc
+        · simp only [ha, Bool.false_eq_true, if_false, Bool.or_eq_true, Bool.and_eq_true, Bool.not_eq_true',
+            List.isEmpty_eq_false_iff] at hc
+          exact ⟨by simpa using ha, hc⟩
+      · simp only [h0, hc, if_false, hne, false_or]
+        constructor
+        · intro h; cases h
+        · intro ⟨ha, hcr⟩
+          exfalso
+          apply hc
+          rw [h2]
+          simp only [ha, Bool.false_eq_true, if_false, Bool.or_eq_true, Bool.and_eq_true, Bool.not_eq_true',
+            List.isEmpty_eq_false_iff]
+          exact hcr
+
+/-- An accepted file leaves no counted error behind (so the next file starts from a clean count). -/
+theorem accepted_leaves_no_errors (s : Sess) (fp : FileParse) (h : (parseFile genParse s fp).2 = some .ok) :
+    (parseFile genParse s fp).1.errCount = 0 := by
+  rw [parse_file_decisions] at h ⊢
+  cases hr : fp.raw with
+  | err e => simp [hr] at h
+  | unwound => by_cases hp : fp.pathExists = true <;> simp [hr, hp] at h
+  | ok =>
+    simp only [hr] at h ⊢
+    by_cases h0 : (emitAll genEmit s fp.diags).errCount = 0
+    · simp [h0]
+    · by_cases hc : (emitAll genEmit s fp.diags).canReset = true
+      · simp [h0, hc, Sess.reset]
+      · simp [h0, hc] at h
+
+/-- What `ignore` is for: while this session has seen nothing that is not ignorable, a file whose diagnostics
+are all non-fatal and lie in ignored files is accepted (its errors are reset), however many they are. -/
+theorem ignored_errors_are_reset (s : Sess) (fp : FileParse) (hs : s.hasNonIgn = false) (hr : fp.raw = .ok)
+    (hd : ∀ d ∈ fp.diags, d.ignorable = true) (hne : fp.diags ≠ []) :
+    (parseFile genParse s fp).2 = some .ok := by
+  rw [accepted_iff]
+  refine ⟨hr, Or.inr ⟨?_, Or.inr ⟨hs, hne⟩⟩⟩
+  cases ha : fp.diags.any (fun d => !d.ignorable) with
+  | false => rfl
+  | true =>
+    obtain ⟨d, hm, hh⟩ := List.any_eq_true.1 ha
+    simp [hd d hm] at hh
+
+/-! ### lifted into the project model -/
+
+/-- **A failing root writes nothing** — files given by their diagnostics.  `pi` says, for every path, what
+the rustc parser does on that file (any sequence of diagnostics of any level located anywhere, then `Ok`,
+`Err` or an unwinding); each file carries whether it is on the `ignore` list; the session state is threaded
+through the files in the order `format_project` parses them, so that what an earlier (ignored or healthy)
+file did to `can_reset` and to the error count is what a later file meets.  If the root file or any file that
+module resolution reaches has a fault — the parser does not return `Ok`, or it reports an error that is fatal
+or has its primary span outside the ignored files; in particular a *recoverable* syntax error in a file that is
+not ignored — or a `mod` has no file or two, then no file-system call is made for that root in any emit mode,
+and the failure is recorded. -/
+theorem fault_implies_no_write (pi : Nat → FileParse) (ops : FileOps) (kind : EmitterKind) (cfg : Cfg) (root : Tree)
+    (hf : faultyE pi cfg root = true) :
+    (runProjectE genParse pi formatProject formatFile ops kind cfg root).log = [] ∧
+    ((cfg.skipChildren && root.file.ignored) = false →
+      (runProjectE genParse pi formatProject formatFile ops kind cfg root).flagged = true) := by
+  have h := fault_implies_no_write_status ops kind cfg (annotateRoot genParse pi cfg root)
+    (annotateRoot_faulty genParse non_ignored_error_never_reset pi cfg root hf)
+  rw [(annotateRoot_file genParse pi cfg root).1] at h
+  exact h
+
+/-- … and the process exits with 1 on any command line that contains that root. -/
+theorem fault_implies_exit_one_diags (pi : Nat → FileParse) (ops : FileOps) (kind : EmitterKind) (g : Config Cfg)
+    (usePath check : Bool) (args : List (Arg Cfg Tree)) (lc : Option (Config Cfg)) (root : Tree) (c : Config Cfg)
+    (ha : Arg.file lc (annotateRoot genParse pi c.opts root) ∈ args) (hc : (if usePath then some g else lc) = some c)
+    (hd : c.disableAll = false) (hi : (c.opts.skipChildren && root.file.ignored) = false)
+    (hf : faultyE pi c.opts root = true) :
+    (runCli (genF ops kind) g usePath args).exit check = 1 :=
+  fault_implies_exit_one ops kind g usePath check args lc _ c ha hc hd
+    (by rw [(annotateRoot_file genParse pi c.opts root).1]; exact hi)
+    (annotateRoot_faulty genParse non_ignored_error_never_reset pi c.opts root hf)
+
+/-! ### sensitivity and non-vacuity -/
+
+/-- a non-fatal error whose primary span lies in the file itself -/
+def ownErr (ignored : Bool) : Diag := ⟨.error, .localFile ignored⟩
+/-- a recoverable syntax error: the parser reports it and returns `Ok` -/
+def recoverable (ignored : Bool) : FileParse := { diags := [ownErr ignored] }
+def clean : FileParse := {}
+
+/-- root `0` (healthy, unformatted) declares `mod a;` (file 1, **on the ignore list**) and then `mod b;` (file 2,
+not ignored); both are unformatted -/
+def ignTree : Tree :=
+  .node { path := 0, parse := .ok, orig := ['r'], visited := ['R'] }
+    (.found (.node { path := 1, parse := .ok, orig := ['a'], visited := ['A'], ignored := true } .nil)
+      (.found (.node { path := 2, parse := .ok, orig := ['b'], visited := ['B'] } .nil) .nil))
+
+/-- the ignored file has a recoverable error; the file after it may have one too -/
+def ignPi (b : FileParse) : Nat → FileParse
+  | 1 => recoverable true
+  | 2 => b
+  | _ => clean
+
+/-- the emitter with `self.can_reset.store(false, …)` removed from `handle_non_ignoreable_error` -/
+def emitWithoutClear : EmitProg := ⟨[.setHasNonIgn true, .forward], ignoredFileBranch⟩
+
+/-- **Sensitivity: clearing `can_reset` matters.**  Without that one store the check `emitProgOk` fails, and
+there is a crate — an ignored module with a recoverable error, then a module that is *not* ignored with a
+recoverable error of its own — on which the run resets the second module's error, reports success and rewrites
+the root and the faulty module.  With the generated blocks the same crate fails with nothing written. -/
+theorem can_reset_clear_matters :
+    emitProgOk emitWithoutClear = false ∧
+    faultyE (ignPi (recoverable false)) {} ignTree = true ∧
+    runProjectE { genParse with emit := emitWithoutClear } (ignPi (recoverable false)) formatProject formatFile idOps .files {} ignTree =
+      ⟨.ok {}, [⟨0, .write .file, ['R', '\n']⟩, ⟨2, .write .file, ['B', '\n']⟩]⟩ ∧
+    runProjectE genParse (ignPi (recoverable false)) formatProject formatFile idOps .files {} ignTree = ⟨.err, []⟩ := by
+  decide
+
+/-- the hypothesis of `fault_implies_no_write` is not always true, and the conclusion is not always true either:
+with the second module healthy the ignored module's error is reset and the run writes the two files that are
+not ignored (never the ignored one) -/
+example : faultyE (ignPi clean) {} ignTree = false ∧
+    runProjectE genParse (ignPi clean) formatProject formatFile idOps .files {} ignTree =
+      ⟨.ok {}, [⟨0, .write .file, ['R', '\n']⟩, ⟨2, .write .file, ['B', '\n']⟩]⟩ := by decide
+
+/-- order does not help the faulty module: visited *before* the ignored one it fails as well; and an ignored
+module whose parse ends in `Err` (an unrecoverable error) fails the run although all its diagnostics are dropped -/
+example :
+    let swapped : Nat → FileParse := fun | 1 => recoverable false | 2 => recoverable true | _ => clean
+    let t : Tree := .node { path := 0, parse := .ok, orig := ['r'], visited := ['R'] }
+      (.found (.node { path := 1, parse := .ok, orig := ['a'], visited := ['A'] } .nil)
+        (.found (.node { path := 2, parse := .ok, orig := ['b'], visited := ['B'], ignored := true } .nil) .nil))
+    runProjectE genParse swapped formatProject formatFile idOps .files {} t = ⟨.err, []⟩ ∧
+    runProjectE genParse (ignPi clean ∘ fun n => n) formatProject formatFile idOps .files {}
+      (.node { path := 0, parse := .ok, orig := ['r'], visited := ['R'] }
+        (.found (.node { path := 1, parse := .ok, orig := ['a'], visited := ['A'], ignored := true } .nil) .nil)) =
+      ⟨.ok {}, [⟨0, .write .file, ['R', '\n']⟩]⟩ ∧
+    runProjectE genParse (fun | 1 => { diags := [], raw := .err (ownErr true) } | _ => clean) formatProject formatFile idOps .files {}
+      ignTree = ⟨.err, []⟩ := by decide
+
+/-- the hypotheses of `can_reset_implies_only_ignored`, `can_reset_invariant`, `hard_error_poisons`,
+`ignored_errors_are_reset` and `accepted_leaves_no_errors` are satisfiable by non-trivial values -/
+example :
+    (emitAll genEmit Sess.init [ownErr true, ⟨.warning, .localFile true⟩]).canReset = true ∧
+    (emitAll genEmit Sess.init [ownErr true, ownErr false, ownErr true]).canReset = false ∧
+    [ownErr true, ⟨.fatal, .localFile true⟩].any Diag.hardError = true ∧
+    (parseFile genParse Sess.init (recoverable true)) = (⟨false, true, 0, 0⟩, some .ok) ∧
+    (parseFile genParse ⟨false, true, 0, 0⟩ (recoverable false)) = (⟨true, false, 1, 1⟩, some .parseError) ∧
+    (parseFile genParse ⟨true, false, 0, 1⟩ (recoverable true)) = (⟨true, false, 1, 1⟩, some .parseError) := by decide
 
 end RF.Props.C05
